@@ -119,6 +119,8 @@ const COMMENT_NODE: u16 = 8;
 impl Default for MetaContext {
     fn default() -> Self {
         let build_cursor: fn() -> SendWrapper<Cursor> = || {
+            #[cfg(leptos_verif)]
+            let document = leptos::tachys::renderer::dom::document;
             let head = document().head().expect("missing <head> element");
             let mut cursor = None;
             let mut child = head.first_child();
@@ -348,6 +350,14 @@ where
     }
 }
 
+#[cfg(leptos_verif)]
+fn document_head() -> leptos::tachys::renderer::types::Element {
+    leptos::tachys::renderer::dom::document()
+        .head()
+        .expect("missing <head> element")
+}
+
+#[cfg(not(leptos_verif))]
 fn document_head() -> HtmlHeadElement {
     let document = document();
     document.head().unwrap_or_else(|| {
